@@ -24,6 +24,12 @@ MergeExact == \A c \in SmallParts(cfg.n, cfg.d) : \A m \in LegalMerges(c, cfg.d)
 InputChunksHazard == \A c \in SmallParts(cfg.n, cfg.d) : \A m \in LegalMerges(c, cfg.d) :
      (m # c /\ Len(m) > 1) => \E x \in 0..(cfg.n - 1) : ReportedFromInputChunks(c, m, cfg.d, x) # {x}
 MergesExist == (cfg.d >= 2 /\ cfg.n >= 3 * cfg.d) => \E c \in SmallParts(cfg.n, cfg.d) : \E m \in LegalMerges(c, cfg.d) : m # c /\ Len(m) > 1
+(* an axis shorter than the overlap depth: the depth used on that axis is the extent itself (pad and un-pad by the SAME amount) *)
+ClipDepth(n, d) == IF d > n THEN n ELSE d
+ThinAxis == \A n \in 1..6, d \in 1..9 : \A x \in 0..(n - 1) :
+     ReportCount(<<n>>, ClipDepth(n, d), x) = 1 /\ Reported(<<n>>, ClipDepth(n, d), x) = {x}
+SlabExtents == <<4, 44, 48>>
+SlabFamilies == {<<<<4>>, <<44>>, <<48>>>>, <<<<4>>, <<22, 22>>, <<24, 24>>>>, <<<<2, 2>>, <<44>>, <<16, 16, 16>>>>}
 BallNotCube == \A r10 \in {10, 16, 25, 40, 60} : CornerOffset(r10) \in DiagonalOffsets(r10) /\ ~InBall(CornerOffset(r10), r10)
 (* 3-D chunkings to replay: products of 1-D partitions of the image extents used by the harness *)
 Extents == <<40, 44, 48>>
@@ -31,6 +37,7 @@ ChunkFamilies == {<<<<40>>, <<44>>, <<48>>>>, <<<<20, 20>>, <<44>>, <<48>>>>, <<
                   <<<<25, 15>>, <<30, 14>>, <<11, 37>>>>, <<<<8, 8, 8, 8, 8>>, <<44>>, <<12, 12, 12, 12>>>>, <<<<33, 7>>, <<9, 35>>, <<48>>>>,
                   \* chunks smaller than the overlap depth (4 for LoG/DoG, 6 for the template matcher): dask merges them
                   <<<<12, 12, 13, 3>>, <<44>>, <<5, 43>>>>, <<<<3, 37>>, <<2, 2, 40>>, <<16, 16, 16>>>>, <<<<40>>, <<20, 21, 3>>, <<4, 4, 4, 36>>>>}
+EmitSlab == (done /\ cfg.n = 6 /\ cfg.d = 1) => \A f \in SlabFamilies : PrintT(ToJson([slab |-> TRUE, extents |-> SlabExtents, chunks |-> f]))
 Emit == (done /\ cfg.n = 6 /\ cfg.d = 1) => \A f \in ChunkFamilies : PrintT(ToJson([extents |-> Extents, chunks |-> f,
               corner |-> [log25 |-> CornerOffset(25), zncc60 |-> CornerOffset(60)]]))
 =============================================================================
